@@ -466,58 +466,71 @@ def private_stream(ctx):
                 text = open(path).read()
                 if "old content" in text:
                     ctx.fail("write-truncates", case, "old content of the target survives in the key file")
-                # load back: right passphrase
-                loaders = [("file", lambda p: cls.from_private_key_file(path, password=p)),
-                           ("fileobj", lambda p: cls.from_private_key(io.StringIO(text), password=p))]
-                for lname, load in loaders:
-                    try:
-                        back = load(pw)
-                    except Exception as e:  # noqa: BLE001
-                        ctx.fail("private-roundtrip:%s:%s" % (kind, exc_site(e)), dict(case, loader=lname), repr(e))
-                        continue
-                    problems = []
-                    if back != key or hash(back) != hash(key) or back.asbytes() != key.asbytes():
-                        problems.append("loaded key differs")
-                    if not back.can_sign():
-                        problems.append("cannot sign")
-                    else:
-                        data = rng.randbytes(20)
-                        blob = back.sign_ssh_data(data).asbytes()
-                        if lk.call_verify(key, data, blob) != ("ok", True) or lk.call_verify(back, data, blob) != ("ok", True):
-                            problems.append("signature of the loaded key does not verify under the original")
-                        blob = key.sign_ssh_data(data).asbytes()
-                        if lk.call_verify(back, data, blob) != ("ok", True):
-                            problems.append("signature of the original does not verify under the loaded key")
-                    if problems:
-                        ctx.fail("private-roundtrip:" + kind, dict(case, loader=lname), ", ".join(problems))
-                    if pw is None:
-                        continue
-                    # without / with a wrong passphrase: must not load
-                    try:
-                        load(None)
-                        ctx.fail("loaded-without-passphrase:" + kind, dict(case, loader=lname), "key loaded")
-                    except PasswordRequiredException:
-                        ctx.dist("no-passphrase:PasswordRequiredException")
-                    except Exception as e:  # noqa: BLE001
-                        ctx.dist("no-passphrase:" + type(e).__name__)
-                        ctx.fail("no-passphrase-exception:%s:%s" % (kind, exc_site(e)), dict(case, loader=lname), repr(e))
-                    for wrong in ("wrong", pw + (b"x" if isinstance(pw, bytes) else "x"), "Secret", "密码"):
-                        if wrong == pw:
-                            continue
-                        try:
-                            got = load(wrong)
-                            if got == key:
-                                ctx.fail("loaded-with-wrong-passphrase:" + kind, dict(case, loader=lname, wrong=repr(wrong)), "key loaded")
-                            else:
-                                ctx.fail("wrong-passphrase-yields-other-key:" + kind, dict(case, loader=lname, wrong=repr(wrong)), "a different key loaded")
-                        except Exception as e:  # noqa: BLE001
-                            ctx.dist("wrong-passphrase:" + type(e).__name__)
-                # write_private_key(file_obj) produces the same kind of text
+                # the same key through the file-object API
+                texts = [("write_private_key_file", text, path)]
                 buf = io.StringIO()
-                key.write_private_key(buf, password=pw)
-                back = cls.from_private_key(io.StringIO(buf.getvalue()), password=pw)
-                if back != key:
-                    ctx.fail("private-roundtrip:" + kind, dict(case, loader="write_private_key"), "loaded key differs")
+                try:
+                    key.write_private_key(buf, password=pw)
+                    fpath2 = path + ".obj"
+                    with open(fpath2, "w") as f:
+                        f.write(buf.getvalue())
+                    texts.append(("write_private_key", buf.getvalue(), fpath2))
+                except Exception as e:  # noqa: BLE001
+                    ctx.fail("write-raises:%s:%s" % (kind, exc_site(e)), dict(case, api="write_private_key"), repr(e))
+                for api, text, fpath in texts:
+                    ctx.case(("written", label, repr(pw), api), True)
+                    ctx.dist("written:%s:%s:%s" % (kind, api, "no-passphrase" if pw is None else "passphrase"))
+                    encrypted = "ENCRYPTED" in text
+                    if pw is not None and not encrypted:
+                        ctx.fail("passphrase-ignored:" + kind, dict(case, api=api), "written with a passphrase, but the PEM is not encrypted")
+                    if pw is None and encrypted:
+                        ctx.fail("encrypted-without-passphrase:" + kind, dict(case, api=api), "PEM is encrypted although no passphrase was given")
+                    # load back: right passphrase
+                    loaders = [("file", lambda p: cls.from_private_key_file(fpath, password=p)),
+                               ("fileobj", lambda p: cls.from_private_key(io.StringIO(text), password=p))]
+                    for lname, load in loaders:
+                        try:
+                            back = load(pw)
+                        except Exception as e:  # noqa: BLE001
+                            ctx.fail("private-roundtrip:%s:%s" % (kind, exc_site(e)), dict(case, api=api, loader=lname), repr(e))
+                            continue
+                        problems = []
+                        if back != key or hash(back) != hash(key) or back.asbytes() != key.asbytes():
+                            problems.append("loaded key differs")
+                        if not back.can_sign():
+                            problems.append("cannot sign")
+                        else:
+                            data = rng.randbytes(20)
+                            blob = back.sign_ssh_data(data).asbytes()
+                            if lk.call_verify(key, data, blob) != ("ok", True) or lk.call_verify(back, data, blob) != ("ok", True):
+                                problems.append("signature of the loaded key does not verify under the original")
+                            blob = key.sign_ssh_data(data).asbytes()
+                            if lk.call_verify(back, data, blob) != ("ok", True):
+                                problems.append("signature of the original does not verify under the loaded key")
+                        if problems:
+                            ctx.fail("private-roundtrip:" + kind, dict(case, api=api, loader=lname), ", ".join(problems))
+                        if pw is None:
+                            continue
+                        # without / with a wrong passphrase: must not load
+                        try:
+                            load(None)
+                            ctx.fail("loaded-without-passphrase:" + kind, dict(case, api=api, loader=lname), "key loaded")
+                        except PasswordRequiredException:
+                            ctx.dist("no-passphrase:PasswordRequiredException")
+                        except Exception as e:  # noqa: BLE001
+                            ctx.dist("no-passphrase:" + type(e).__name__)
+                            ctx.fail("no-passphrase-exception:%s:%s" % (kind, exc_site(e)), dict(case, api=api, loader=lname), repr(e))
+                        for wrong in ("wrong", pw + (b"x" if isinstance(pw, bytes) else "x"), "Secret", "密码"):
+                            if wrong == pw:
+                                continue
+                            try:
+                                got = load(wrong)
+                                if got == key:
+                                    ctx.fail("loaded-with-wrong-passphrase:" + kind, dict(case, api=api, loader=lname, wrong=repr(wrong)), "key loaded")
+                                else:
+                                    ctx.fail("wrong-passphrase-yields-other-key:" + kind, dict(case, api=api, loader=lname, wrong=repr(wrong)), "a different key loaded")
+                            except Exception as e:  # noqa: BLE001
+                                ctx.dist("wrong-passphrase:" + type(e).__name__)
         # Ed25519: paramiko cannot write these; load files written by cryptography instead
         try:
             paramiko.Ed25519Key.from_private_key_file(lk.support("ed25519.key")).write_private_key_file(os.path.join(tmp, "ed"))
@@ -634,7 +647,10 @@ def write_stream(ctx):
                             ctx.fail("passphrase-ignored:" + kind, case, "file written unencrypted although a passphrase was given")
                         if p is None and encrypted:
                             ctx.fail("encrypted-without-passphrase:" + kind, case, "file is encrypted although no passphrase was given")
-                        if p is not None:
+                        if p is not None and not isinstance(p, (bytes, str)):
+                            ctx.fail("passphrase-ignored:" + kind, case, "write succeeded with a passphrase of type %s (%s)"
+                                     % (type(p).__name__, impl))
+                        elif p is not None:
                             want = p if isinstance(p, bytes) else p.encode("utf-8")
                             if not impl.endswith("Best:" + hx(want)):
                                 ctx.fail("passphrase-bytes:" + kind, case, "serialised with %s, expected the bytes %s" % (impl, want.hex()))
@@ -833,12 +849,8 @@ def run(ctx):
     ctx.assume("private-key serialisation and passphrase protection are cryptography's; only validated by the oracle",
                "Sec1 law for from_encoded_point on on-curve points; rsaMake/edMake accept the material of real keys")
     ctx.build()
-    codec_stream(ctx)
-    identity_stream(ctx)
-    source_facts(ctx)
-    private_stream(ctx)
-    write_stream(ctx)
-    dest_stream(ctx)
+    for stream in (codec_stream, identity_stream, source_facts, private_stream, write_stream, dest_stream):
+        lk.guarded(ctx, stream)
 
 
 META = {
